@@ -28,6 +28,18 @@ using C = cappuccino::lfu_cache<uint64_t, VAL_T, cappuccino::thread_safe::TS>;
 #define T_HAS_CLEAN 0
 #define T_HAS_CLEAR 0
 #define T_HAS_UPDTTL 0
+#ifdef C_IS_LFUDA
+// states the replay's state builder can reach directly: every count at least 1 (a count of 0 needs an earlier aging pass,
+// which the two-call lifting supplies as the first call)
+#define BUILDER_OK(pre) builder_ok(pre)
+static inline bool builder_ok(const Abs& a)
+{
+    for (size_t p = 0; p < AMAX; ++p)
+        if (p < a.n && a.cnt[p] < 1)
+            return false;
+    return true;
+}
+#endif
 // value-range bound of the claim: use counts below 2^16 (an assumption on the pre-state, never an invariant conjunct)
 #define ASSUME_BOUNDS(c, pre)                                                                                          \
     for (size_t p_ = 0; p_ < AMAX; ++p_)                                                                               \
